@@ -119,6 +119,14 @@ def kernel_site(sd, ev, kern):
     return None
 
 
+def _kernel_output(term, kern):
+    """kernel(...)  or  kernel(...).reshape(<any shape>): the root finder's result, at most reshaped."""
+    a = term.as_atom()
+    if a and a[0] == "call" and call_name(a) == ".reshape":
+        a = a[1].as_atom()[1].as_atom()
+    return bool(a and a[0] == "call" and (call_name(a) or "").endswith(kern))
+
+
 def r09_1(chk, sd, dx):
     for q, kern in DESCRIPTORS:
         ev = sd.ev(q, opaque={"r", "o"})
@@ -147,7 +155,7 @@ def r09_1(chk, sd, dx):
                    node=site["event"].node, fingerprint="sentinel-survives", found=site["killers"][:2] or str(rdef[0])[:100])
         else:
             chk.ob("R09.1", SD, q, "the radii tested are the kernel's output for this grid",
-                   bool(rdef) and kern in rdef[0].key() and ".reshape(sht.grid[0].shape)" in rdef[0].key(), found=str(rdef[0])[:120] if rdef else None)
+                   bool(rdef) and _kernel_output(rdef[0], kern), found=str(rdef[0])[:120] if rdef else None)
             # nothing between the kernel and the test may rewrite the radii (a clip / maximum / abs turns the -1 sentinel into a radius)
             first_raise = min((ev.events.index(e) for e in raises), default=len(ev.events))
             redefs = [e for i, e in enumerate(ev.events) if i < first_raise and e.kind in ("assign", "store", "aug")
@@ -165,6 +173,12 @@ def r09_1(chk, sd, dx):
                     later.append(e)
                 elif not shape_only:
                     raise AnalysisError(f"{SD}:{q}: the radii are rewritten before the negative-radius test in a way that is not recognised: {vk[:100]}")
+            # ... nor overwrite the kernel's array in place before it is bound to a name (np.clip(kernel(...), lo, hi, out=<same array>))
+            for i, e in enumerate(ev.events):
+                if i < first_raise and e.kind == "call" and call_name(e.value.as_atom() or ()) in SENTINEL_KILLERS:
+                    out = dict(e.extra.get("kwargs") or ()).get("out")
+                    if out is not None and kern in out.key():
+                        later.append(e)
             chk.ob("R09.1", SD, q, "the radii reach the negative-radius test as the root finder returned them (only reshaped: nothing between the two "
                    "may turn the -1 sentinel into an admissible radius)", not later, node=later[0].node if later else None,
                    fingerprint="sentinel-survives", found=[f"line {e.lineno}: r = {str(e.value)[:80]}" for e in later][:2])
